@@ -9,6 +9,7 @@ import AgeModel.Extracted.Consts
 import Proofs.GoTieKeyFile
 import Proofs.GoTieCliKeyFile
 import Props.C18
+import Proofs.GoTieWitnessB
 namespace AgeModel
 namespace Tie.C18
 
@@ -124,6 +125,13 @@ theorem code_recipientsFile_warnings {ρ π τ : Type} (E : GoTie.RecFileEnv ρ 
 
 /-- the model parameters used above are the ones the driver runs the model with -/
 theorem model_parameters : Exec.KeyFile.limit = 16777216 ∧ Exec.KeyFile.maxTok = 65536 ∧ Go.maxScanTokenSize = 65536 := by decide
+
+/-- **the assumption structures this file's theorems take are satisfiable** (for a lawful toy primitive suite
+    with the 16-byte tag, where they mention primitives): none of the theorems above is vacuous. The instances are in
+    `Proofs/GoTieWitnessA.lean` / `GoTieWitnessB.lean`. -/
+theorem assumptions_satisfiable :
+    (∀ (sniff : Bytes → Option Bytes) (valid : Bytes → Bool), ∃ E : GoTie.RecFileEnv Unit Unit (List Nat), E.sniff = sniff ∧ E.valid = valid) :=
+  fun sniff valid => ⟨GoTie.RecFileEnv.witness sniff valid, GoTie.RecFileEnv.witness_fields sniff valid⟩
 
 end Tie.C18
 end AgeModel
